@@ -56,3 +56,77 @@ Print Assumptions C11_svd_logabsdet.
 (* NOT PROVED: that the list-of-rows construction from the parameter vectors yields matrices with these shapes
    (checked by the correspondence), NaiveLinear's reliance on torch.slogdet / lu_solve (contracts), and the
    constructor claim about initial reflection vectors (searched on the implementation). *)
+
+(* ================================================================================================================
+   The same statements about the method bodies REGENERATED from lu.py, qr.py, svd.py and linear.py on every run
+   (Gen/LinearFamily.v: weight, weight_inverse, logabsdet, forward_no_cache, inverse_no_cache and the combined accessor that
+   fills the cache, as matrix expression trees; Proofs/MatExprP.v gives them their meaning: a batch is the matrix of its rows,
+   solve_triangular reads the triangle / unit diagonal its flags say, a Householder product acts on rows).  L, U, d, W, Q are
+   what the constructors build (their shape is tied to the code by the extracted list-of-rows correspondence). *)
+From NF Require Import Base.Rfield Model.MatExpr Gen.LinearFamily Proofs.MatExprP.
+
+Theorem C11_generated_LULinear : forall (n : nat) (L U : 'M[R]_n) (b : 'rV[R]_n),
+  (forall i j : 'I_n, (i < j)%N -> L i j = 0) -> (forall i, L i i = 1) ->
+  (forall i j : 'I_n, (j < i)%N -> U i j = 0) -> (forall i, Rlt 0%R (U i i)) ->
+  forall X : 'M[R]_n,
+  let ev := eval L U 0 0 0 0 b in let sv := seval (0 : 'M[R]_n) lu_logabsdet (fun i => U i i) in
+  ev X lu_weight = L *m U /\ ev X lu_weight_inverse *m ev X lu_weight = 1%:M /\
+  ev X lu_forward_no_cache.1 = X *m (L *m U)^T + rows_of b /\
+  ev (ev X lu_forward_no_cache.1) lu_inverse_no_cache.1 = X /\
+  sv lu_logabsdet = ln (Rabs (\det (ev X lu_weight))) /\ sv lu_forward_no_cache.2 = sv lu_logabsdet /\
+  sv lu_inverse_no_cache.2 = - sv lu_logabsdet.
+Proof.
+  move=> n L U b H1 H2 H3 H4 X /=. split; first exact: lu_weight_is_LU. split; first exact: lu_weight_inverse_inverts.
+  split; first exact: lu_forward_is_affine. split; first exact: lu_inverse_undoes_forward.
+  exact: (lu_logabsdet_is_log_det b H1 H2 H3 H4 X).
+Qed.
+Print Assumptions C11_generated_LULinear.
+
+Theorem C11_generated_QRLinear : forall (n : nat) (U Q : 'M[R]_n) (b : 'rV[R]_n),
+  (forall i j : 'I_n, (j < i)%N -> U i j = 0) -> (forall i, Rlt 0%R (U i i)) -> Q^T *m Q = 1%:M ->
+  forall X : 'M[R]_n,
+  let ev := eval 0 U 0 Q 0 0 b in let sv := seval (0 : 'M[R]_n) qr_logabsdet (fun i => U i i) in
+  ev X qr_weight = Q *m U /\ ev X qr_weight_inverse *m ev X qr_weight = 1%:M /\
+  ev X qr_forward_no_cache.1 = X *m (Q *m U)^T + rows_of b /\
+  ev (ev X qr_forward_no_cache.1) qr_inverse_no_cache.1 = X /\
+  sv qr_logabsdet = ln (Rabs (\det (ev X qr_weight))) /\ sv qr_forward_no_cache.2 = sv qr_logabsdet /\
+  sv qr_inverse_no_cache.2 = - sv qr_logabsdet.
+Proof.
+  move=> n U Q b H1 H2 H3 X /=. split; first exact: qr_weight_is_QU. split; first exact: qr_weight_inverse_inverts.
+  split; first exact: qr_forward_is_affine. split; first exact: qr_inverse_undoes_forward.
+  exact: (qr_logabsdet_is_log_det b H1 H2 H3 X).
+Qed.
+Print Assumptions C11_generated_QRLinear.
+
+Theorem C11_generated_SVDLinear : forall (n : nat) (Q1 Q2 : 'M[R]_n) (d b : 'rV[R]_n),
+  (forall i, Rlt 0%R (d 0 i)) -> Q1^T *m Q1 = 1%:M -> Q2^T *m Q2 = 1%:M ->
+  forall X : 'M[R]_n,
+  let ev := eval 0 0 0 Q1 Q2 d b in let sv := seval (0 : 'M[R]_n) svd_logabsdet (fun i => d 0 i) in
+  ev X svd_weight = Q1 *m diag_mx d *m Q2 /\ ev X svd_weight_inverse *m ev X svd_weight = 1%:M /\
+  ev X svd_forward_no_cache.1 = X *m (Q1 *m diag_mx d *m Q2)^T + rows_of b /\
+  ev (ev X svd_forward_no_cache.1) svd_inverse_no_cache.1 = X /\
+  sv svd_logabsdet = ln (Rabs (\det (ev X svd_weight))) /\ sv svd_forward_no_cache.2 = sv svd_logabsdet /\
+  sv svd_inverse_no_cache.2 = - sv svd_logabsdet.
+Proof.
+  move=> n Q1 Q2 d b H1 H2 H3 X /=. split; first exact: svd_weight_is_Q1DQ2. split; first exact: svd_weight_inverse_inverts.
+  split; first exact: svd_forward_is_affine. split; first exact: svd_inverse_undoes_forward.
+  exact: (svd_logabsdet_is_log_det b H1 H2 H3 X).
+Qed.
+Print Assumptions C11_generated_SVDLinear.
+
+Theorem C11_generated_NaiveLinear : forall (n : nat) (W : 'M[R]_n) (b : 'rV[R]_n), W \in unitmx ->
+  forall X : 'M[R]_n,
+  let ev := eval 0 0 W 0 0 0 b in let sv := seval W naive_logabsdet (fun _ => 0) in
+  ev X naive_weight_inverse *m ev X naive_weight = 1%:M /\
+  ev X naive_forward_no_cache.1 = X *m W^T + rows_of b /\
+  ev (ev X naive_forward_no_cache.1) naive_inverse_no_cache.1 = X /\
+  sv naive_logabsdet = ln (Rabs (\det (ev X naive_weight))) /\ sv naive_forward_no_cache.2 = sv naive_logabsdet /\
+  sv naive_inverse_no_cache.2 = - sv naive_logabsdet /\
+  sv naive_weight_inverse_and_logabsdet.2 = sv naive_logabsdet /\
+  ev X naive_weight_inverse_and_logabsdet.1 = ev X naive_weight_inverse /\
+  base_combined_accessors_delegate = true.
+Proof.
+  move=> n W b HW X /=. split; first exact: naive_weight_inverse_inverts. split; first by [].
+  split; first exact: naive_inverse_undoes_forward. by [].
+Qed.
+Print Assumptions C11_generated_NaiveLinear.
